@@ -40,22 +40,34 @@ EXPLANATION = (
     "+/-, and Unit(str(result.units), registry) has the same scale (well-formedness invariant => induction over programs)."
 )
 BOUNDS = {
-    "quick": "ops {+ - * / (operator, ufunc, in-place, out=), maximum/minimum/fmax/fmin, hypot, remainder/mod/fmod/floor_divide/divmod "
-             "(scalar payload), 6 comparisons, negative/absolute/fabs/positive, "
-             "sqrt/cbrt/square/reciprocal, power with the 13 rational exponents of E, add/multiply reduce/accumulate/outer and "
-             "sum/prod/cumsum, dot/matmul up to 2x2, sin/cos/tan of angle units, np.clip, six depth-2 programs}; unit shapes {atomic, "
-             "k-prefixed, ua*ub, ua/ub, ua**2 (symbolic scales), cancelling table pairs cm/m, km/m, hr/min, km/hr~m/s (concrete "
-             "scales, symbolic values), bare numbers}; payload shapes (), (2,) with broadcasting; dimension families length, mass, "
-             "angle, scaled-dimensionless, temperature without offset",
-    "thorough": "as quick with every op x every form x every unit-shape pair, payload shapes up to (2,2), and +, *, /, sqrt swept over every "
-                "dimension found in the registry at run time",
+    "quick": "ops {+ - * / (operator, ufunc, in-place, out=), true_divide, maximum/minimum/fmax/fmin, hypot, remainder/mod/fmod/floor_divide/"
+             "divmod (scalar payload), 6 comparisons, negative/absolute/fabs/positive/conjugate, sqrt/cbrt/square/reciprocal, power with "
+             "the 13 rational exponents of E, add/multiply reduce/accumulate/outer and sum/prod/cumsum (methods and np.*), dot/matmul/"
+             "inner/vdot up to 2x2 @ 2, sin/cos/tan of angle units, np.clip, 10 depth-2 programs}; operand unit shapes {atomic, k/m-"
+             "prefixed, ua*ub, ua/ub, ua**2 with symbolic scales; table pairs that cancel in products: km~m, m~cm, hr~min, km/hr~m/s, "
+             "km/m, cm**2~1/m ... with concrete scales and symbolic values; bare numbers}; payload shapes (), (2,), (2,2) with "
+             "broadcasting; dimension families length, mass, time, current, angle, scaled-dimensionless, offset-free temperature; a "
+             "selection of op x form x unit-pair x shape combinations (1193 cases)",
+    "thorough": "same ops; every op x every form x every listed unit pair x payload shapes (), (2,)~(), ()~(2,), (2,)~(2,) and selected "
+                "(2,2); +, -, sqrt swept over every dimension found in the registry at run time and *, / over every ordered pair of them "
+                "(except pairs whose product/quotient is dimensionless: cancellation with symbolic scales)",
 }
-OUTSIDE = ("IEEE rounding/overflow/nan (A1); integer and complex payloads (C17); offset units (C08); exp/log/hyperbolic/non-angle trig, "
-           "logaddexp, rounding family, frexp/modf/spacing, floor-division of different dimensions (as the property says); cancellation "
-           "of same-dimension unit factors with SYMBOLIC scales (sympy cannot hold a z3 term: those pairs use table units); power with "
-           "non-scalar exponents; roots of negative values; matmul beyond 2x2; the ndarray.clip method and multiply.accumulate (both "
-           "raise for every input on this tree). A bare number is read as a dimensionless quantity: `1 + x%` coming back as "
-           "'dimensionless' is not counted against the left-most-unit clause.")
+OUTSIDE = ("IEEE rounding/overflow/nan (A1); integer and complex payloads (C17); units with an offset (C08); exp/log/hyperbolic/non-angle "
+           "trig, logaddexp, rounding family, frexp/modf/spacing, floor-division of different dimensions (as the property says); "
+           "cancellation of same-dimension unit factors with SYMBOLIC scales (sympy cannot hold a z3 term: those pairs use table units, "
+           "and floor_divide/divmod of two symbolic-scale units assume the scales exactly equal or more than 1e-3 apart); power with "
+           "non-scalar exponents; roots of negative values; matmul beyond 2x2; (2,2)@(2,2) with inexact table coefficients; the "
+           "ndarray.clip method and multiply.accumulate (both raise for every input on this tree; np.clip with mixed units raises - a "
+           "refusal is not a wrong number). A bare number is read as a dimensionless quantity: `1 + x%` coming back as 'dimensionless' "
+           "is not counted against the left-most-unit clause. Registry identity of result units (C13).")
+ASSUMPTIONS = [
+    "C04: np.divmod has no object-dtype loop; in symbolic mode the ufunc object handed to the real unyt_array.__array_ufunc__ is a "
+    "stand-in equal and hash-equal to np.divmod whose call applies SymReal.__divmod__ element-wise (plain replays use np.divmod / divmod())",
+    "C04: obligations over floors are first tried on a sound over-approximation (each ToReal(ToInt(a)) replaced by a fresh real k with "
+    "k <= a < k+1; the axioms are a conservative extension of the path condition); a counter-model is always one of the exact obligation",
+    "C04: discontinuous operations are judged by their characterisation with an admissible band of 1e-8 relative around ties "
+    "(quotient within the band of an integer may be floored either way; comparisons of SI magnitudes closer than 1e-8 relative may go either way)",
+]
 
 # ------------------------------------------------------------------------------------------------ units of the harness
 
@@ -426,10 +438,6 @@ def out_quantity(ctx, reg, shape):
 def si_array(v, s):
     """bare array of SI magnitudes of payload v (object array in symbolic mode, float array otherwise)"""
     return v * s
-
-
-def numeric(vs):
-    return [v for v in vs]
 
 
 # ------------------------------------------------------------------------------------------------ binary operations
@@ -914,11 +922,6 @@ def make_clip_case(form, spec0, spec1, spec2, sh=(2,), tag="", same_object=False
 
 
 # ------------------------------------------------------------------------------------------------ depth-2 programs (sanity of the invariant)
-
-def _prog_abcd(ctx, q):
-    a, b, c, d = q
-    return (a + b) * c / d
-
 
 PROGRAMS = {
     # name: (operand specs, domains, program on quantities, same program on SI magnitudes, dims function)
